@@ -1,6 +1,7 @@
 package main
 
 import (
+	"time"
 	"encoding/json"
 	"fmt"
 	"os"
@@ -22,6 +23,7 @@ func runC12(c *Ctx) {
 	for h := 0; h < nh; h++ {
 		c12Mutids(c, h)
 		c12Labels(c, h)
+		c12Repositioned(c, h)
 	}
 }
 
@@ -146,6 +148,102 @@ func c12Mutids(c *Ctx, h int) {
 }
 
 var reStartEnd = regexp.MustCompile(`"start": (\d+), "end": (\d+)`)
+
+// c12Repositioned: after an administrator repositioned the label counter (set-nextlabel) labels handed out by
+// cleaves (newLabel), by next-label requests (newLabels) and across clean / abrupt restarts are still never
+// issued twice and strictly increase.
+func c12Repositioned(c *Ctx, h int) {
+	r := c.Rng.Fork()
+	dir := scratchDir("c12n")
+	defer os.RemoveAll(dir)
+	ch := mustChild(c, dir, nil)
+	if ch == nil {
+		return
+	}
+	defer func() {
+		if ch != nil {
+			ch.Kill()
+		}
+	}()
+	resp, _ := ch.HTTP("POST", "repos", []byte(`{"alias":"a","description":"d"}`))
+	uuid := jsonField(resp.Body, "root")
+	ch.HTTP("POST", "repo/"+uuid+"/instance", []byte(`{"typename":"labelmap","dataname":"lmx","BlockSize":"32,32,32"}`))
+	// supervoxels 1..16 as slabs of two planes, merged into body 1: up to 15 cleaves are possible
+	blk := make([]uint64, 32*32*32)
+	for i := range blk {
+		blk[i] = uint64(1 + (i/(32*32))/2)
+	}
+	if resp, _ := ch.HTTP("POST", "node/"+uuid+"/lmx/raw/0_1_2/32_32_32/0_0_0", u64le(blk)); !resp.OK() {
+		c.Report("H", "C12 repositioned-setup", resp.String(), "")
+		return
+	}
+	ch.AskT("SETTLE "+uuid+" lmx", 30*time.Second)
+	ch.HTTP("POST", "node/"+uuid+"/lmx/merge", []byte("[1,2,3,4,5,6,7,8,9,10,11,12,13,14,15,16]"))
+	ch.AskT("SETTLE "+uuid+" lmx", 30*time.Second)
+	start := 1000 + r.Intn(5000)
+	if resp, _ := ch.HTTP("POST", fmt.Sprintf("node/%s/lmx/set-nextlabel/%d", uuid, start), nil); !resp.OK() {
+		c.Report("H", "C12 set-nextlabel", resp.String(), "")
+		return
+	}
+	c.Model.Ask(fmt.Sprintf("nx.set %d", start))
+	hist := []string{fmt.Sprintf("set-nextlabel/%d", start)}
+	var issued []uint64
+	nextSV, events := 2, 0
+	for i := 0; i < 24; i++ {
+		switch k := r.Intn(10); {
+		case k < 4 && nextSV <= 16:
+			resp, _ := ch.HTTP("POST", fmt.Sprintf("node/%s/lmx/cleave/1", uuid), []byte(fmt.Sprintf("[%d]", nextSV)))
+			nextSV++
+			if !resp.OK() {
+				c.Report("H", "C12 cleave", resp.String(), strings.Join(hist, " "))
+				return
+			}
+			l, _ := strconv.ParseUint(jsonField(resp.Body, "CleavedLabel"), 10, 64)
+			c.AskCmp("labelmap.newLabel (repositioned counter)", "nx.one", fmt.Sprintf("ok %d", l))
+			issued = append(issued, l)
+			hist = append(hist, fmt.Sprintf("cleave->%d", l))
+			c.Count("label.repositioned.cleave")
+			ch.AskT("SETTLE "+uuid+" lmx", 30*time.Second)
+		case k < 7:
+			n := 1 + r.Intn(3)
+			resp, _ := ch.HTTP("POST", fmt.Sprintf("node/%s/lmx/nextlabel/%d", uuid, n), nil)
+			var o struct{ Start, End uint64 }
+			json.Unmarshal(resp.Body, &o)
+			if !resp.OK() {
+				c.Report("H", "C12 nextlabel", resp.String(), strings.Join(hist, " "))
+				return
+			}
+			c.AskCmp("labelmap.newLabels (repositioned counter)", fmt.Sprintf("nx.many %d", n), fmt.Sprintf("ok %d %d", o.Start, o.End))
+			for l := o.Start; l <= o.End; l++ {
+				issued = append(issued, l)
+			}
+			hist = append(hist, fmt.Sprintf("nextlabel/%d->%d..%d", n, o.Start, o.End))
+			c.Count("label.repositioned.nextlabel")
+		default:
+			how := "SHUTDOWN"
+			if r.Bool() {
+				how = "EXIT"
+			}
+			ch.Stop(how)
+			c.Model.Ask("nx.restart")
+			ch = mustChild(c, dir, nil)
+			if ch == nil {
+				return
+			}
+			hist = append(hist, "restart("+how+")")
+			events++
+			c.Count("label.repositioned.restart." + how)
+		}
+	}
+	for i := 1; i < len(issued); i++ {
+		if issued[i] <= issued[i-1] {
+			c.Report("O", "C12 label-not-increasing repositioned", "after set-nextlabel an allocated label was issued twice or out of order",
+				fmt.Sprintf("issued %v\nhistory: %s", issued, strings.Join(hist, " ")))
+			break
+		}
+	}
+	c.Eval("repositioned "+strings.Join(hist, " "), events > 0)
+}
 
 func c12Labels(c *Ctx, h int) {
 	r := c.Rng.Fork()
